@@ -142,6 +142,7 @@ def patched(rec, spec, inject=None):
         up = expected_user_point(spec, x) if x.size == spec["nfree"] else np.asarray(x, float)
         rec.ev("evalBegin", f2b(penalty), rec.pid(up))
         state.update(in_eval=True, f=None, v_done=False)
+        rec.extra.pop("obj_raw", None)
         try:
             out = orig_call(self, x, penalty)
         except BaseException as exc:
@@ -171,7 +172,16 @@ def patched(rec, spec, inject=None):
         v = orig_maxcv(self, x, cub_val, ceq_val)
         if state["in_eval"] and not state["v_done"]:
             state["v_done"] = True
-            rec.ev("val", f2b(state["f"]), f2b(v))
+            # the objective value of this evaluation is what the USER's function returned (spied in `record`), not what
+            # the library's wrapper made of it: the history must hold the raw values
+            f = state["f"]
+            raw = rec.extra.pop("obj_raw", None)
+            if raw is not None:
+                try:
+                    f = float(np.squeeze(raw))
+                except Exception:  # noqa
+                    pass
+            rec.ev("val", f2b(f), f2b(v))
         return v
     patch(P.Problem, "maxcv", maxcv)
 
@@ -345,6 +355,7 @@ def record(problem, timeout=120, inject=None):
             rec.ev("obj", rec.pid(x))
             rec.user_calls.append(("obj", np.array(x, float)))
             v = fun(x, *args)
+            rec.extra["obj_raw"] = v
             rec.returns.append(("obj", None, rec.pid(x), v, len(rec.events)))
             return v
     cons = []
